@@ -14,4 +14,4 @@ import XPathV.Theorems.C02
 #print axioms XPathV.Theorems.C02.C02_built_predicate_truth
 #print axioms XPathV.Theorems.C02.C02_from_text
 #print axioms XPathV.Theorems.C02.compile_never_out_of_fuel
-#print axioms XPathV.Theorems.C02.evaluate_restarts_all_iterators'
+#print axioms XPathV.Theorems.C02.evaluate_restarts_all_iterators_any_predicate
